@@ -99,7 +99,7 @@ type Out struct {
 
 func NewOut(dir string) *Out {
 	os.MkdirAll(dir, 0o755)
-	o := &Out{dir: dir, Stats: map[string]int{}, seen: map[string]struct{}{}}
+	o := &Out{dir: dir, Stats: map[string]int{}, seen: map[string]struct{}{}, Samples: []string{}}
 	var err error
 	if o.fc, err = os.Create(filepath.Join(dir, "cases.txt")); err != nil {
 		panic(err)
